@@ -1,4 +1,5 @@
 """C07 — reading a style map never fails and never hangs."""
+import common
 import json
 import random
 import re
@@ -105,7 +106,7 @@ def timing_ok(out, tier):
 
 def run(out, tier, seed, model_ok):
     rng = random.Random(seed * 7919 + 7)
-    n = 3000 if tier == "quick" else 40000
+    n = common.deepen(3000 if tier == "quick" else 40000)
     texts = []
     for i in range(n):
         r = rng.random()
